@@ -126,6 +126,12 @@ func (e *Engine) runInit(st *State) error {
 	saved := e.cfg
 	e.cfg.MaxInstrPath = 200_000_000
 	defer func() { e.cfg = saved }()
+	// package initialisers run with one map iteration order (insertion
+	// order): tables built by ranging over a map literal do not depend on it,
+	// and exploring the orders would fork the initial state
+	mo := st.MapOrder
+	st.MapOrder = 0
+	defer func() { st.MapOrder = mo }()
 	e.run(st)
 	if st.EndKind != "ok" {
 		return fmt.Errorf("package init: %s %s", st.EndKind, st.EndMsg)
@@ -162,6 +168,7 @@ func RunUnit(ld *Loaded, harness string, cfg Config, workDir string, seed int, p
 			}
 		}
 	}()
+	fpMixed = cfg.FPMixed
 	liveSolver = "z3-new"
 	if cfg.Live != "" {
 		liveSolver = cfg.Live
